@@ -15,10 +15,11 @@ from core import enc_bool, enc_str, enc_str_list
 
 PROPERTY = "C20"
 
-# CODE VARIANT FLAGS  (the value that matches today's code in /repo; see Model/Theme.lean, Model/ConfigParser.lean)
-CTX_IGNORES_INHERIT = 0  # F14: ThemeContext.__enter__ calls push_theme(self.theme) without inherit=self.inherit
-CFG_LOWER = 1  # Theme.from_file uses ConfigParser() with optionxform = str.lower
-CFG_INTERP = 0  # F15: Theme.from_file uses ConfigParser() with BasicInterpolation ('%' is special)
+# CODE VARIANT FLAGS  (the value that matches the code in /repo as it is now; 1 = rich 9.10.0 as found; see Model/Theme.lean,
+# Model/ConfigParser.lean).  F14 and F15 are repaired in /repo (0); CFG_LOWER stays 1: it is the known finding config-name-case.
+CTX_IGNORES_INHERIT = 0  # F14: ThemeContext.__enter__ calls push_theme(self.theme) without inherit=self.inherit (0: repaired, fix 2ea71d3)
+CFG_LOWER = 1  # Theme.from_file uses ConfigParser() with optionxform = str.lower (known finding config-name-case: not repaired, 1 matches /repo)
+CFG_INTERP = 0  # F15: Theme.from_file uses ConfigParser() with BasicInterpolation ('%' is special) (0: repaired, fix 1124f7d)
 
 
 class UserErr(Exception):
@@ -872,10 +873,11 @@ MANIFEST = {
     "variants of optionxform/interpolation) returns exactly the entries Theme.config wrote, for all entry lists with safe names/values; "
     "`config_roundtrip` over the abstract contract, `config_roundtrip_model`/`_inherit` for the modelled parser; `default_names_safe` "
     "re-proved by `decide +kernel` on the DEFAULT_STYLES keys translated from /repo on every run. Witnesses by `decide`: "
-    "`old_use_theme_ignores_inherit` (F14), `old_config_percent_breaks`/`_changes_value` (F15), `old_config_lowercases_names`. "
+    "`old_use_theme_ignores_inherit` (F14, repaired by fix 2ea71d3), `old_config_percent_breaks`/`_changes_value` (F15, repaired by fix 1124f7d), "
+    "`old_config_lowercases_names` (the known finding config-name-case, not repaired). "
     "Tie: every history forest with <=3 (quick) / <=4 (thorough) statements over 6 statement kinds with 27 lookups after each statement, "
     "seeded random histories to depth 4 (1 in 8 on the default console), all push/pop words <=5 (7) directly on ThemeStack, Theme() over "
-    "12 names x 24 definitions, config round trip over single-entry themes (all name classes x links) and random themes, random config "
+    "random dicts drawn from a pool of 12 names x (9 Style objects + 24 definitions: 14 that parse, 10 that do not), config round trip over single-entry themes (all name classes x links) and random themes, random config "
     "texts over 35 line shapes, str.isspace on all code points - each compared model-vs-rich and evaluated against a frame-list oracle "
     "written from the property statement.",
     "note": "Trusted: Lean kernel; axioms propext/Classical.choice/Quot.sound; translator plug-in harness/gen/default_style_names.py; "
@@ -886,7 +888,8 @@ MANIFEST = {
     "`unmodelled`, counted) and is checked against the real parser on every generated text. Round-trip domain (stated, not a "
     "finding): names non-empty, without '=' ':' newline, strip()-stable, not starting with '#' ';' '[' - other names cannot be "
     "written in configparser syntax at all. One thread only (the stack is thread-local); dicts held by the stack are assumed not "
-    "to be mutated from outside (ThemeStack aliases theme.styles for the base). Code-variant flags at the top of this file select "
-    "today's behaviour (F14, F15, lower-cased names) until the pending fixes land.",
+    "to be mutated from outside (ThemeStack aliases theme.styles for the base). Code-variant flags at the top of this file match /repo as it is "
+    "now: F14 and F15 are repaired there (fixes 2ea71d3, 1124f7d; flags 0); lower-cased names are the known finding config-name-case "
+    "(CFG_LOWER = 1, KNOWN-FINDING on every run).",
     "design_ref": "DESIGN.md section 7, C20",
 }
